@@ -424,12 +424,11 @@ func ruleVD9(c *Ctx) {
 		okFields := true
 		for _, fl := range []string{"Sha256AtAttach", "MtimeAtAttach", "GitCommitAtAttach"} {
 			b, nme, ok := fieldLoad(resolve(em.Fields[fl]))
-			_ = b
-			if !ok || nme != fl || ev == nil || !valueFromCallTo(em.Fields[fl], cre) {
+			if !ok || nme != fl || ev == nil || !valueFromCallTo(em.Fields[fl], cre) || !onlyFromCallTo(b, cre, 0) {
 				okFields = false
 			}
 		}
-		c.check(okFields, fn, construct+"|evidence-fields", pos, "sha256/mtime/git fields are the fields of captureResultEvidence's result", "an evidence field of the event is not taken from captureResultEvidence's result")
+		c.check(okFields, fn, construct+"|evidence-fields", pos, "sha256/mtime/git fields are the fields of captureResultEvidence's result on every path", "an evidence field of the event can come from somewhere other than captureResultEvidence's result for this attach (cached/reused evidence): the recorded sha256 need not be the hash of the file's content at that moment")
 		// task id and provenance
 		if tid := em.Fields["TaskID"]; tid != nil {
 			if b, nme, ok := fieldLoad(resolve(tid)); ok && nme == "ID" {
@@ -1024,6 +1023,59 @@ func textIsInputLoad(v ssa.Value) bool {
 		if _, n, ok := fieldLoad(x); ok {
 			return n == "Title" || n == "Body"
 		}
+	}
+	return false
+}
+
+// onlyFromCallTo: every value that can flow into v (through phis, cells and whole-struct copies) is the result of a call to fn.
+func onlyFromCallTo(v ssa.Value, fn *ssa.Function, d int) bool {
+	if v == nil || d > 12 {
+		return false
+	}
+	v = strip(v)
+	switch x := v.(type) {
+	case *ssa.Phi:
+		for _, e := range x.Edges {
+			if !onlyFromCallTo(e, fn, d+1) {
+				return false
+			}
+		}
+		return true
+	case *ssa.Extract:
+		if cl, ok := x.Tuple.(*ssa.Call); ok {
+			return cl.Call.StaticCallee() == fn
+		}
+		return false
+	case *ssa.Call:
+		return x.Call.StaticCallee() == fn
+	case *ssa.UnOp:
+		if x.Op == token.MUL {
+			if cell := cellOf(x.X); cell != nil {
+				return onlyFromCallTo(cell, fn, d+1)
+			}
+		}
+		return false
+	case *ssa.Alloc:
+		sts := cellStores(x)
+		if len(sts) == 0 {
+			return false
+		}
+		for _, st := range sts {
+			if !onlyFromCallTo(st.Val, fn, d+1) {
+				return false
+			}
+		}
+		// no field-wise stores into the local copy
+		for _, r := range *x.Referrers() {
+			if fa, ok := r.(*ssa.FieldAddr); ok {
+				for _, u := range *fa.Referrers() {
+					if _, isStore := u.(*ssa.Store); isStore {
+						return false
+					}
+				}
+			}
+		}
+		return true
 	}
 	return false
 }
